@@ -78,6 +78,12 @@ def oracle_constructor(rng, out):
     given = seq if rng.random() < 0.7 else seq.lower()
     try:
         cons = [hard.build_constraint(d) for d in descs]
+        if rng.random() < 0.25:
+            # the same constraint objects were used before on another sequence
+            try:
+                dc.DnaOptimizationProblem(hard.rand_seq(rng, len(seq)), constraints=cons, logger=None)
+            except Exception:
+                pass
         seed_used = rng.randint(0, 10 ** 6)
         np.random.seed(seed_used)
         p = dc.DnaOptimizationProblem(given, constraints=cons, logger=None)
